@@ -187,6 +187,20 @@ pub struct P2Cfg {
     pub slaac: bool,
     pub dhcp: bool,
     pub mtu: usize,
+    /// a scripted DHCP server (and nothing else) is in the alphabet: leases are acquired,
+    /// renewed, refused, so that the deadlines of a configured client are probed too
+    pub served: bool,
+}
+
+pub fn p2_configs() -> Vec<P2Cfg> {
+    vec![
+        P2Cfg { name: "iface", slaac: false, dhcp: false, mtu: 1500, served: false },
+        P2Cfg { name: "iface-frag", slaac: false, dhcp: false, mtu: 120, served: false },
+        P2Cfg { name: "iface-dhcp", slaac: false, dhcp: true, mtu: 1500, served: false },
+        P2Cfg { name: "iface-dhcp-served", slaac: false, dhcp: true, mtu: 1500, served: true },
+        P2Cfg { name: "iface-slaac", slaac: true, dhcp: false, mtu: 1500, served: false },
+        P2Cfg { name: "iface-slaac-frag", slaac: true, dhcp: false, mtu: 120, served: false },
+    ]
 }
 
 #[derive(Clone, Debug, PartialEq)]
@@ -200,6 +214,11 @@ pub enum P2Ev {
     DnsQuery,
     ArpReplyFromPeer,
     RouterAdvert { lifetime_s: u16, prefix: bool },
+    /// the DHCP server answers the client's latest message: DISCOVER -> OFFER, REQUEST -> ACK
+    /// (lease of `lease_s` seconds, T1/T2 left to the client's defaults)
+    DhcpAnswer { lease_s: u32 },
+    /// the DHCP server refuses the client's latest REQUEST
+    DhcpNak,
 }
 
 pub struct P2 {
@@ -213,6 +232,8 @@ pub struct P2 {
     hist: Vec<P2Ev>,
     last_poll_quiet: bool,
     probes: u64,
+    /// latest DHCP client message seen on the wire: (message type, transaction id)
+    last_dhcp: Option<(smoltcp::wire::DhcpMessageType, u32)>,
 }
 
 const MY_MAC: [u8; 6] = [2, 0, 0, 0, 0, 1];
@@ -229,8 +250,80 @@ impl P2 {
         self.iface.poll(t, &mut self.dev, &mut self.sockets);
         // let the DHCP client apply nothing: configuration changes are application calls
         let tx = self.dev.take_tx();
+        for (_, f) in &tx {
+            self.note_dhcp(f);
+        }
         let n = tx.iter().filter(|(_, f)| !is_group_report(true, f)).count();
         (rx_before - self.dev.rx.len(), n)
+    }
+    /// driver only (never an oracle): remember the client's latest DHCP message
+    fn note_dhcp(&mut self, f: &[u8]) {
+        use smoltcp::wire::*;
+        if f.len() < 42 || f[12] != 0x08 || f[13] != 0x00 || f[14] != 0x45 || f[23] != 17 || f[36] != 0 || f[37] != 67 {
+            return;
+        }
+        if let Ok(p) = DhcpPacket::new_checked(&f[42..]) {
+            if let Ok(r) = DhcpRepr::parse(&p) {
+                self.last_dhcp = Some((r.message_type, r.transaction_id));
+            }
+        }
+    }
+    fn dhcp_reply(&mut self, ty: smoltcp::wire::DhcpMessageType, xid: u32, lease_s: u32) {
+        use smoltcp::wire::*;
+        let server = Ipv4Address::new(192, 168, 1, 2);
+        let client = Ipv4Address::new(192, 168, 1, 1);
+        let r = DhcpRepr {
+            message_type: ty,
+            transaction_id: xid,
+            secs: 0,
+            client_hardware_address: EthernetAddress(MY_MAC),
+            client_ip: Ipv4Address::UNSPECIFIED,
+            your_ip: if ty == DhcpMessageType::Nak { Ipv4Address::UNSPECIFIED } else { client },
+            server_ip: server,
+            router: Some(server),
+            subnet_mask: Some(Ipv4Address::new(255, 255, 255, 0)),
+            relay_agent_ip: Ipv4Address::UNSPECIFIED,
+            broadcast: false,
+            requested_ip: None,
+            client_identifier: None,
+            server_identifier: Some(server),
+            parameter_request_list: None,
+            dns_servers: None,
+            max_size: None,
+            lease_duration: if ty == DhcpMessageType::Nak { None } else { Some(lease_s) },
+            renew_duration: None,
+            rebind_duration: None,
+            additional_options: &[],
+        };
+        let dl = r.buffer_len();
+        let mut f = vec![0u8; 14 + 20 + 8 + dl];
+        f[0..6].copy_from_slice(&[0xff; 6]);
+        f[6..12].copy_from_slice(&PEER_MAC);
+        f[12] = 0x08;
+        let ip = Ipv4Repr { src_addr: server, dst_addr: Ipv4Address::BROADCAST, next_header: IpProtocol::Udp, payload_len: 8 + dl, hop_limit: 64 };
+        ip.emit(&mut Ipv4Packet::new_unchecked(&mut f[14..34]), &smoltcp::phy::ChecksumCapabilities::default());
+        let udp = UdpRepr { src_port: 67, dst_port: 68 };
+        udp.emit(
+            &mut UdpPacket::new_unchecked(&mut f[34..]),
+            &IpAddress::Ipv4(server),
+            &IpAddress::Ipv4(Ipv4Address::BROADCAST),
+            dl,
+            |b| r.emit(&mut DhcpPacket::new_unchecked(b)).unwrap(),
+            &smoltcp::phy::ChecksumCapabilities::default(),
+        );
+        self.dev.rx.push_back(f);
+    }
+    fn arp_reply_from_peer(&mut self) {
+        // unsolicited ARP reply 192.168.1.2 is-at PEER_MAC, addressed to us
+        let mut f = vec![];
+        f.extend_from_slice(&MY_MAC);
+        f.extend_from_slice(&PEER_MAC);
+        f.extend_from_slice(&[0x08, 0x06, 0, 1, 8, 0, 6, 4, 0, 2]);
+        f.extend_from_slice(&PEER_MAC);
+        f.extend_from_slice(&[192, 168, 1, 2]);
+        f.extend_from_slice(&MY_MAC);
+        f.extend_from_slice(&[192, 168, 1, 1]);
+        self.dev.rx.push_back(f);
     }
     fn poll_at(&mut self) -> Option<i64> {
         let t = self.inst();
@@ -263,17 +356,22 @@ impl P2 {
                 let s = self.sockets.get_mut::<dns::Socket>(self.dns);
                 let _ = s.start_query(cx, "a.example", smoltcp::wire::DnsQueryType::A);
             }
-            P2Ev::ArpReplyFromPeer => {
-                // unsolicited ARP reply 192.168.1.2 is-at PEER_MAC, addressed to us
-                let mut f = vec![];
-                f.extend_from_slice(&MY_MAC);
-                f.extend_from_slice(&PEER_MAC);
-                f.extend_from_slice(&[0x08, 0x06, 0, 1, 8, 0, 6, 4, 0, 2]);
-                f.extend_from_slice(&PEER_MAC);
-                f.extend_from_slice(&[192, 168, 1, 2]);
-                f.extend_from_slice(&MY_MAC);
-                f.extend_from_slice(&[192, 168, 1, 1]);
-                self.dev.rx.push_back(f);
+            P2Ev::ArpReplyFromPeer => self.arp_reply_from_peer(),
+            P2Ev::DhcpAnswer { lease_s } => {
+                use smoltcp::wire::DhcpMessageType as M;
+                // the server is also the resolved neighbor the unicast renewals go to
+                self.arp_reply_from_peer();
+                match self.last_dhcp.take() {
+                    Some((M::Discover, xid)) => self.dhcp_reply(M::Offer, xid, *lease_s),
+                    Some((M::Request, xid)) => self.dhcp_reply(M::Ack, xid, *lease_s),
+                    _ => {}
+                }
+            }
+            P2Ev::DhcpNak => {
+                use smoltcp::wire::DhcpMessageType as M;
+                if let Some((M::Request, xid)) = self.last_dhcp.take() {
+                    self.dhcp_reply(M::Nak, xid, 0);
+                }
             }
             P2Ev::RouterAdvert { lifetime_s, prefix } => {
                 use smoltcp::wire::*;
@@ -352,7 +450,7 @@ impl Harness for P2 {
         if cfg.dhcp {
             sockets.add(dhcpv4::Socket::new());
         }
-        let mut p = P2 { cfg: cfg.clone(), iface, dev, sockets, udp, dns, now: 0, hist: vec![], last_poll_quiet: false, probes: 0 };
+        let mut p = P2 { cfg: cfg.clone(), iface, dev, sockets, udp, dns, now: 0, hist: vec![], last_poll_quiet: false, probes: 0, last_dhcp: None };
         // initial poll(s)
         for _ in 0..4 {
             p.poll();
@@ -364,6 +462,17 @@ impl Harness for P2 {
         p
     }
     fn enabled(&self) -> Vec<(P2Ev, u32)> {
+        if self.cfg.served {
+            // a small alphabet of its own, so that a whole acquire / renew / rebind / refuse
+            // history fits the depth bound
+            let mut v = vec![(P2Ev::Tick, 0), (P2Ev::Plus(500_000), 0), (P2Ev::UdpToResolved, 0)];
+            if self.last_dhcp.is_some() {
+                v.push((P2Ev::DhcpAnswer { lease_s: 1000 }, 0));
+                v.push((P2Ev::DhcpAnswer { lease_s: 60 }, 0));
+                v.push((P2Ev::DhcpNak, 0));
+            }
+            return v;
+        }
         let mut v = vec![
             (P2Ev::Tick, 0),
             (P2Ev::Plus(500_000), 0),
@@ -419,7 +528,7 @@ impl Harness for P2 {
         }
     }
     fn fingerprint(&self) -> u128 {
-        fp128(&format!("{:?}|{}|{}", self.sockets, self.iface.verif_digest(), self.now))
+        fp128(&format!("{:?}|{}|{}|{:?}", self.sockets, self.iface.verif_digest(), self.now, self.last_dhcp))
     }
     fn outcome(&self) -> String {
         String::new()
@@ -477,13 +586,8 @@ pub fn run(tier: Tier) -> i32 {
         }
     }
     let d = if tier == Tier::Quick { 5 } else { 7 };
-    for cfg in [
-        P2Cfg { name: "iface", slaac: false, dhcp: false, mtu: 1500 },
-        P2Cfg { name: "iface-frag", slaac: false, dhcp: false, mtu: 120 },
-        P2Cfg { name: "iface-dhcp", slaac: false, dhcp: true, mtu: 1500 },
-        P2Cfg { name: "iface-slaac", slaac: true, dhcp: false, mtu: 1500 },
-        P2Cfg { name: "iface-slaac-frag", slaac: true, dhcp: false, mtu: 120 },
-    ] {
+    for cfg in p2_configs() {
+        let d = if cfg.served { d + 2 } else { d };
         let mut samples = vec![];
         let mut found = vec![];
         let t0 = std::time::Instant::now();
@@ -521,8 +625,7 @@ pub fn replay(art: &serde_json::Value) -> i32 {
             }
         }
     } else {
-        for (slaac, dhcp, mtu, name) in [(false, false, 1500, "iface"), (false, false, 120, "iface-frag"), (false, true, 1500, "iface-dhcp"), (true, false, 1500, "iface-slaac"), (true, false, 120, "iface-slaac-frag")] {
-            let c = P2Cfg { name, slaac, dhcp, mtu };
+        for c in p2_configs() {
             if format!("{:?}", c) == cfgs {
                 return replay_artifact::<P2>(&c, art);
             }
